@@ -139,3 +139,18 @@ Example C13_panic_examples :
   (exists t', free ex_tree 6 = Ok t' /\ Find t' 6 [0x5e] = Panic).
 Proof. split; [vm_compute; reflexivity|]. eexists. split; vm_compute; reflexivity. Qed.
 
+
+(** ClosestNamedAncestor on the example tree: every object is a named ScopeBlock, so the closest
+    named ancestor of _ADR (slot 4) is IDE0 (slot 3); the root has none *)
+Example C13_closest_example :
+  ClosestNamedAncestor ex_tree (Some 4) = Ok 3 /\ closest_ref ex_tree (arun ghost0 ex_ops) 4 = Some 3 /\
+  ClosestNamedAncestor ex_tree (Some 0) = Ok InvalidIndex /\ ClosestNamedAncestor ex_tree None = Ok InvalidIndex.
+Proof. vm_compute. repeat split; reflexivity. Qed.
+
+Example C13_info_ok_nonvacuous : info_ok ex_tree.
+Proof.
+  assert (H : forallb (fun o => (N.to_nat (o_infoIndex o) <? length tree_opcodeTableFlags)%nat) (t_pool ex_tree) = true)
+    by (vm_compute; reflexivity).
+  intros i o Hg _. unfold get in Hg. apply nth_error_In in Hg.
+  rewrite forallb_forall in H. apply Nat.ltb_lt. apply H. exact Hg.
+Qed.
